@@ -227,3 +227,31 @@ def scale_lift(ctx, n):
                               dict(kind="scale", property="C06", seed=ctx.seed, n=n, case=x))
         else:
             raise Infra("candidate did not reproduce: %s" % v)
+
+
+def scale_sem(ctx, corpus, cfg, n):
+    """generic scaling lift (sends without allotments): small case validated by TLC, the same case with every number x U on the real code"""
+    prop = ctx.prop
+    sp = os.path.join(ctx.work, "ssem_small_%s.ndjson" % corpus)
+    op = os.path.join(ctx.work, "ssem_%s.ndjson" % corpus)
+    summ = ctx.vh_json(["scale-sem", corpus, prop, ctx.seed, n, sp, op])
+    r1 = ctx.tlc_trace("MachineTrace", cfg, sp, label="small cases of the scaling lift (%s)" % corpus)
+    r2 = ctx.tlc_trace("ValueTrace", "ValueTrace_Scaled.cfg", op, label="scaled runs (factors 2^31 .. 10^30) (%s)" % corpus)
+    ctx.cov["evaluations"] += 2 * summ["cases"]
+    ctx.cov["big_amount_cases"] = ctx.cov.get("big_amount_cases", 0) + summ["cases"]
+    ctx.cov["traces_validated_against_impl"] += summ["cases"]
+    ctx.cov["samples"] += (summ["samples"] or [])[:1]
+    viols = [v for v in r1["viols"] + r2["viols"] if v["prop"] == prop]
+    if viols:
+        lines = {x["n"]: x for x in read_ndjson(op)}
+        v = viols[0]
+        x = lines.get(v["id"], {})
+        ctx.vh_json(["scale-sem", corpus, prop, ctx.seed, n, sp + "2", op + "2"])
+        r3 = ctx.tlc_trace("ValueTrace", "ValueTrace_Scaled.cfg", op + "2", label="confirmation")
+        r4 = ctx.tlc_trace("MachineTrace", cfg, sp + "2", label="confirmation")
+        if [w for w in r3["viols"] + r4["viols"] if w["prop"] == prop]:
+            ctx.add_violation("%s: %s | factor %s | script: %s | vars %s | balances %s | small %s %s | big %s %s" % (prop, v["what"], x.get("factor"), str(x.get("text", "")).replace("\n", " ")[:300],
+                              x.get("rawvars"), x.get("bal"), x.get("smallst"), x.get("small"), x.get("st"), x.get("big")),
+                              dict(kind="scale", property=prop, seed=ctx.seed, n=n, case=x))
+        else:
+            raise Infra("candidate did not reproduce: %s" % v)
